@@ -967,3 +967,151 @@ Theorem bi_names_nodup : C10_bi_names_nodup_stmt.
 Proof. intros b H. split; [apply b_got_spec, H | apply b_items_NoDup, H]. Qed.
 Theorem bi_nested_flattens_to_flat : C10_bi_nested_flattens_to_flat_stmt.
 Proof. intros b H. apply b_nested_flattens_to_flat, H. Qed.
+
+(** * Unknown names (observable form) *)
+Lemma dict_ext (l1 l2 : list (path * Qc)) : map fst l1 = map fst l2 -> NoDup (map fst l1) ->
+  (forall k, In k (map fst l1) -> kw_get k l1 = kw_get k l2) -> l1 = l2.
+Proof.
+  revert l2. induction l1 as [|[k x] l1 IH]; intros [|[k2 x2] l2] Hk Hnd H; cbn [map fst] in Hk; try discriminate; [reflexivity|].
+  injection Hk as <- Hk. inversion Hnd as [|? ? Hni Hnd']; subst.
+  pose proof (H k (or_introl eq_refl)) as H0. cbn [kw_get] in H0. rewrite path_eqb_refl in H0. injection H0 as <-.
+  f_equal. apply IH; [exact Hk | exact Hnd'|]. intros k' Hk'. pose proof (H k' (or_intror Hk')) as H1. cbn [kw_get] in H1.
+  rewrite path_eqb_neq in H1; [exact H1 | intros ->; contradiction].
+Qed.
+Lemma side_lk_nil side k : side_lk side [] k = None.
+Proof.
+  destruct k as [|n t]; [reflexivity|]. unfold side_lk, eff. rewrite !kw_last_nil'.
+  destruct (mem (head_of (n :: t)) sides), (mem (head_of t) sides); reflexivity.
+Qed.
+
+Lemma in_combine_exists {A B} (ks : list A) : forall (qs : list B) k, length qs = length ks -> In k ks ->
+  exists q, In (k, q) (combine ks qs).
+Proof.
+  induction ks as [|k0 ks IH]; intros [|q qs] k Hl Hk; cbn in *; try tauto; try discriminate.
+  destruct Hk as [->|Hk]; [exists q; left; reflexivity|]. destruct (IH qs k) as (q' & Hq'); [lia | exact Hk|]. exists q'. right. exact Hq'.
+Qed.
+
+Theorem bi_unknown_names_ignored : C10_bi_unknown_names_ignored_stmt.
+Proof.
+  intros b a kw Hok Hun Hunc r1 r2. subst r1 r2.
+  pose proof (bi_set_spec b a kw Hok) as H1. pose proof (bi_set_spec b a [] Hok) as H2. cbv zeta in H1, H2.
+  assert (Hnew : b_new b a kw = b_new b a []).
+  { unfold b_new. apply plan_ext. intros k Hk. rewrite (Hun k Hk), b_lk_nil. reflexivity. }
+  assert (Hacc : b_accepts b a kw = b_accepts b a []).
+  { unfold b_accepts. rewrite Hnew. do 2 f_equal. f_equal. apply plan_ext. intros k Hk. rewrite (Hunc k Hk), side_lk_nil. reflexivity. }
+  rewrite Hacc in H1. destruct (b_accepts b a []).
+  - destruct H1 as (q1 & Hq1 & Hs1 & Hn1 & Hg1 & Hok1). destruct H2 as (q2 & Hq2 & Hs2 & Hn2 & Hg2 & Hok2).
+    assert (q1 = q2) by (apply vals_inj; rewrite <- Hq1, <- Hq2; exact Hnew). subst q2.
+    split; [rewrite Hs1, Hs2; reflexivity|]. intros _.
+    apply dict_ext; [rewrite Hn1, Hn2; reflexivity | rewrite Hn1; apply b_items_NoDup, Hok|].
+    intros k Hk. rewrite Hn1 in Hk. apply b_order_same_names in Hk.
+    assert (Hlen : length q1 = length (b_set_order b)).
+    { apply (f_equal (@length _)) in Hq1. unfold b_new in Hq1. rewrite plan_length, vals_length in Hq1. symmetry. exact Hq1. }
+    assert (Hex : exists q, In (k, q) (combine (map fst (b_set_order b)) q1))
+      by (apply in_combine_exists; [rewrite map_length; exact Hlen | exact Hk]).
+    destruct Hex as (q & Hq). rewrite (Hg1 k q Hq), (Hg2 k q Hq). reflexivity.
+  - split; [rewrite H1, H2; reflexivity|]. intros Hne. rewrite H1 in Hne. contradiction.
+Qed.
+
+(** * set_params( **get_params()) (observable form) *)
+Lemma own_kwargs_kw_of (l : list (path * Qc)) : own_kwargs l = kw_of (map fst l) (map snd l).
+Proof. unfold own_kwargs, kw_of, vals. induction l as [|[k x] l IH]; [reflexivity|]. cbn. rewrite IH. reflexivity. Qed.
+Lemma b_order_same_items b kx : In kx (b_set_order b) <-> In kx (b_items b).
+Proof.
+  unfold b_set_order. destruct (b_symT b) eqn:ET, (b_symL b) eqn:EL; try tauto.
+  unfold b_items. rewrite ET, EL. rewrite !pre_app, !in_app_iff. tauto.
+Qed.
+Lemma b_contra_dist_notin b t k : b_names_ok b = true -> TS (b_ipsi b) t -> ~ In ("contra" :: [t; k]) (map fst (b_items b)).
+Proof.
+  intros Hok Ht. destruct (b_names_ok_parts b Hok) as (Hi & Hc & _).
+  assert (Hres : forall w, In w reserved -> t <> w) by (intros w Hw ->; exact (in_reserved_not_tstage _ _ Hi Hw Ht)).
+  assert (Hplain : forall u k', (In k' (map fst (u_tumor_items u)) \/ In k' (map fst (u_lnl_items u)) \/ In k' (map fst (u_dist_items u))) ->
+             u_names_ok u = true -> "contra" :: [t; k] <> k').
+  { intros u k' [H|[H|H]] Hu Heq; subst k'.
+    - destruct (spread_key_form u _ (or_introl H)) as (n & s & [=] & _).
+    - destruct (spread_key_form u _ (or_intror H)) as (n & s & [=] & _).
+    - destruct (dist_key_form u _ H) as (n & s & [=] & _). }
+  assert (Hpre : forall u k', (In k' (map fst (u_tumor_items u)) \/ In k' (map fst (u_lnl_items u))) -> (forall s, EN u s <-> EN (b_ipsi b) s) ->
+             [t; k] <> k').
+  { intros u k' H Hen Heq. subst k'. destruct (spread_key_form u _ H) as (n & s & [= <- _] & Hn). apply Hen in Hn.
+    exact (EN_TS_disj _ Hi _ Hn Ht). }
+  pose proof (contra_edge_names b Hok) as Hcen.
+  unfold b_items. destruct (b_symT b), (b_symL b); rewrite ?map_app, ?pre_app, ?map_app, ?in_app_iff, ?in_pre_keys; intros Hin;
+    repeat match goal with H : _ \/ _ |- _ => destruct H end;
+    repeat match goal with H : exists k', _ /\ _ |- _ => destruct H as (? & ? & ?) end;
+    try (match goal with H : "contra" :: [t; k] = ["ipsi"] ++ _ |- _ => discriminate H end);
+    try (match goal with H : "contra" :: [t; k] = ["contra"] ++ ?x, H' : In ?x _ |- _ =>
+           injection H as H; first [ apply (Hpre (b_contra b) x (or_introl H') Hcen H) | apply (Hpre (b_contra b) x (or_intror H') Hcen H) ] end);
+    try (match goal with H : In _ (map fst (u_tumor_items ?u)) |- _ => apply (Hplain u _ (or_introl H)); [assumption | reflexivity] end);
+    try (match goal with H : In _ (map fst (u_lnl_items ?u)) |- _ => apply (Hplain u _ (or_intror (or_introl H))); [assumption | reflexivity] end);
+    try (match goal with H : In _ (map fst (u_dist_items ?u)) |- _ => apply (Hplain u _ (or_intror (or_intror H))); [assumption | reflexivity] end).
+Qed.
+
+Lemma skipn_nil_b {A} n : skipn n (@nil A) = [].
+Proof. destruct n; reflexivity. Qed.
+
+Theorem bi_set_own_params_is_identity : C10_bi_set_own_params_is_identity_stmt.
+Proof.
+  intros b Hwf Hds Hmt r. subst r. unfold b_wf in Hwf. apply andb_true_iff in Hwf. destruct Hwf as [Hok Hv].
+  unfold b_vals_ok in Hv. apply andb_true_iff in Hv. destruct Hv as [Hvi Hvc].
+  unfold u_vals_ok in Hvi, Hvc. apply andb_true_iff in Hvi, Hvc. destruct Hvi as [Hvie Hvid]. destruct Hvc as [Hvce Hvcd].
+  destruct (b_names_ok_parts b Hok) as (Hi & Hc & _).
+  rewrite (b_got_spec b Hok). set (kw := own_kwargs (b_items b)).
+  assert (Hkw : kw = kw_of (map fst (b_items b)) (map snd (b_items b))) by apply own_kwargs_kw_of.
+  assert (Hlk : forall k x, In (k, x) (b_items b) -> b_lk kw k = Some (V x)).
+  { intros k x Hin. rewrite Hkw. apply b_lk_kw_of; [exact Hok | rewrite map_length; reflexivity|].
+    change (In (k, V x) (kw_of (map fst (b_items b)) (map snd (b_items b)))).
+    rewrite <- own_kwargs_kw_of. unfold own_kwargs. apply in_map_iff. exists (k, x). split; [reflexivity | exact Hin]. }
+  assert (Hnew : b_new b [] kw = vals (map snd (b_set_order b))).
+  { unfold b_new. apply plan_own. intros k x Hin. apply Hlk, b_order_same_items, Hin. }
+  assert (Hcd : plan (side_lk "contra" kw) (u_dist_items (b_contra b)) [] = vals (map snd (u_dist_items (b_contra b)))).
+  { apply plan_own. intros k x Hin. unfold u_dist_items in Hin. rewrite Hds in Hin. fold (u_dist_items (b_ipsi b)) in Hin.
+    assert (Hk : In k (map fst (u_dist_items (b_ipsi b)))) by (apply in_map_iff; exists (k, x); split; [reflexivity | exact Hin]).
+    destruct (dist_key_form _ _ Hk) as (t & s & -> & Ht).
+    assert (Hitem : In ([t; s], x) (b_items b)) by (rewrite b_items_split, in_app_iff; right; exact Hin).
+    pose proof (Hlk _ _ Hitem) as Hb. rewrite b_lk_plain in Hb
+      by (intros ->; apply (in_reserved_not_tstage _ _ Hi) in Ht; [exact Ht | cbn; tauto]).
+    (* the contralateral side falls back to the global name as well *)
+    unfold side_lk, eff in Hb |- *.
+    assert (Hnc : kw_last ("contra" :: [t; s]) kw = None).
+    { rewrite Hkw, kw_last_NoDup by (rewrite kw_of_keys; [apply b_items_NoDup, Hok | rewrite !map_length; reflexivity]).
+      apply kw_get_In_None. rewrite kw_of_keys by (rewrite !map_length; reflexivity). apply b_contra_dist_notin; assumption. }
+    rewrite Hnc.
+    destruct (kw_last ("ipsi" :: [t; s]) kw) eqn:Eip.
+    - (* "ipsi_t_s" is no reported name *)
+      exfalso. rewrite Hkw, kw_last_NoDup in Eip by (rewrite kw_of_keys; [apply b_items_NoDup, Hok | rewrite !map_length; reflexivity]).
+      apply kw_get_Some_In in Eip. apply in_combine_l in Eip.
+      destruct (b_name_form b Hok [t; s]) as [(n & t' & Heq)|[(n & t' & Heq)|(n & t' & Heq & _ & _ & Hni)]].
+      + apply in_map_iff. exists ([t; s], x). split; [reflexivity | exact Hitem].
+      + injection Heq as -> _. apply (in_reserved_not_tstage _ _ Hi) in Ht; [exact Ht | cbn; tauto].
+      + injection Heq as -> _. apply (in_reserved_not_tstage _ _ Hi) in Ht; [exact Ht | cbn; tauto].
+      + apply Hni. exact Eip.
+    - assert (Hts : kw_last [t; s] kw = Some (V x)).
+      { rewrite Hkw, kw_last_NoDup by (rewrite kw_of_keys; [apply b_items_NoDup, Hok | rewrite !map_length; reflexivity]).
+        apply kw_get_NoDup_In; [rewrite kw_of_keys; [apply b_items_NoDup, Hok | rewrite !map_length; reflexivity]|].
+        rewrite <- own_kwargs_kw_of. unfold own_kwargs. apply in_map_iff. exists ([t; s], x). split; [reflexivity | exact Hitem]. }
+      assert (Hmem : mem (head_of [t; s]) sides = false).
+      { apply mem_false. cbn. intros [H|[H|[]]]; subst t; apply (in_reserved_not_tstage _ _ Hi) in Ht; try exact Ht; cbn; tauto. }
+      rewrite Hmem, Hts. reflexivity. }
+  pose proof (bi_set_spec b [] kw Hok) as Hs. cbv zeta in Hs.
+  assert (HnS : b_num_spread b = length (b_set_order b) - length (u_dist_items (b_ipsi b)))
+    by (unfold b_num_spread; rewrite (b_items_length b Hok); reflexivity).
+  assert (Hsplit : b_set_order b = (side_order is_tumor_spread (b_symT b) b ++ side_order sel_lnl (b_symL b) b) ++ u_dist_items (b_ipsi b))
+    by (rewrite b_set_order_split, app_assoc; reflexivity).
+  assert (HnS' : b_num_spread b = length (side_order is_tumor_spread (b_symT b) b ++ side_order sel_lnl (b_symL b) b))
+    by (rewrite HnS, Hsplit, app_length; lia).
+  assert (Hacc : b_accepts b [] kw = true).
+  { unfold b_accepts. rewrite Hnew, skipn_nil_b, Hcd. rewrite Hsplit, map_app, vals_app.
+    rewrite firstn_app_len, skipn_app_len by (rewrite vals_length, map_length; symmetry; exact HnS').
+    rewrite all_unit_vals.
+    - cbn [is_some andb]. unfold u_dist_items. rewrite (dists_put_own _ _ Hvid). rewrite Hmt, Hds, (dists_put_own _ _ Hvid). reflexivity.
+    - unfold side_order, u_sel_items. rewrite map_app, forallb_app.
+      destruct (b_symT b), (b_symL b); rewrite ?map_app, ?forallb_app, ?pre_vals, ?(sel_params_vals_unit _ _ _ Hvie), ?(sel_params_vals_unit _ _ _ Hvce); reflexivity. }
+  rewrite Hacc in Hs. destruct Hs as (qs & Hq & Hsnd & Hnames & Hget & _).
+  rewrite Hnew in Hq. apply vals_inj in Hq. subst qs. split; [rewrite Hsnd; destruct (length (b_items b)); reflexivity|].
+  apply dict_ext; [exact Hnames | rewrite Hnames; apply b_items_NoDup, Hok|].
+  intros k Hk. rewrite Hnames in Hk. apply in_map_iff in Hk. destruct Hk as ([k' x] & <- & Hin). cbn [fst].
+  rewrite (Hget k' x).
+  - symmetry. apply kw_get_NoDup_In; [apply b_items_NoDup, Hok | exact Hin].
+  - rewrite combine_fst_snd. apply b_order_same_items, Hin.
+Qed.
